@@ -232,7 +232,8 @@ type env struct {
 	cases   string
 	plan    *plan
 	gitPath string
-	lackOid string // the object the "lacking" endpoint does not have
+	fmu     sync.Mutex
+	faults  map[string]int // per fault endpoint: how often the fault position was reached
 }
 
 type builtWorldEntry struct {
@@ -349,34 +350,79 @@ func (ev *env) base(k baseKey) string {
 	return e.dir
 }
 
-// installServerHook implements the "lacking" endpoint: <url>/lacking/... answers like the normal endpoint but
-// reports one object (ev.lackOid) as missing (per-object 404 in the batch response).
+// installServerHook implements the per-case fault endpoints <url>/x/<fault>-<oid>-<case>/...: they answer like the
+// normal endpoint except for ONE object (see faultNames).  "once" faults count per endpoint, i.e. per case.
 func (ev *env) installServerHook() {
-	lack := ev.lackOid
 	ev.srv.Hook = func(s *fakelfs.Server, w http.ResponseWriter, r *http.Request, rec *fakelfs.Recorded) bool {
-		if rec.Kind != "batch" || !strings.HasPrefix(r.URL.Path, "/lacking/") {
+		if !strings.HasPrefix(r.URL.Path, "/x/") {
 			return false
 		}
-		var req fakelfs.BatchRequest
-		if json.Unmarshal(rec.Body, &req) != nil {
+		rest := r.URL.Path[3:]
+		j := strings.IndexByte(rest, '/')
+		if j < 0 {
 			return false
 		}
-		resp := fakelfs.BatchResponse{Transfer: "basic"}
-		for _, o := range req.Objects {
-			ro := &fakelfs.RespObject{Oid: o.Oid, Size: o.Size, Authenticated: true}
-			data, have := s.Get(o.Oid)
-			if !have || o.Oid == lack {
-				ro.Error = &fakelfs.ObjError{Code: 404, Message: "object does not exist"}
-			} else {
-				ro.Size = int64(len(data))
-				ro.Actions = map[string]*fakelfs.Action{"download": {Href: s.URL + "/full/storage/" + o.Oid}}
+		tag := rest[:j]
+		parts := strings.Split(tag, "-")
+		if len(parts) < 3 {
+			return false
+		}
+		foid := parts[len(parts)-2]
+		kind := strings.Join(parts[:len(parts)-2], "-")
+		first := func() bool {
+			ev.fmu.Lock()
+			defer ev.fmu.Unlock()
+			ev.faults[tag]++
+			return ev.faults[tag] == 1
+		}
+		switch rec.Kind {
+		case "batch":
+			if kind != faultNames[ftBatchPerm] && kind != faultNames[ftBatchOnce] {
+				return false
 			}
-			resp.Objects = append(resp.Objects, ro)
+			var req fakelfs.BatchRequest
+			if json.Unmarshal(rec.Body, &req) != nil {
+				return false
+			}
+			resp := fakelfs.BatchResponse{Transfer: "basic"}
+			for _, o := range req.Objects {
+				ro := &fakelfs.RespObject{Oid: o.Oid, Size: o.Size, Authenticated: true}
+				data, have := s.Get(o.Oid)
+				switch {
+				case !have:
+					ro.Error = &fakelfs.ObjError{Code: 404, Message: "object does not exist"}
+				case o.Oid == foid && kind == faultNames[ftBatchPerm]:
+					ro.Error = &fakelfs.ObjError{Code: 404, Message: "object does not exist"}
+				case o.Oid == foid && first():
+					ro.Error = &fakelfs.ObjError{Code: 503, Message: "object temporarily unavailable"}
+				default:
+					ro.Size = int64(len(data))
+					ro.Actions = map[string]*fakelfs.Action{"download": {Href: s.URL + "/x/" + tag + "/storage/" + o.Oid}}
+				}
+				resp.Objects = append(resp.Objects, ro)
+			}
+			b, _ := json.Marshal(resp)
+			w.Header().Set("Content-Type", fakelfs.MediaType)
+			w.WriteHeader(200)
+			w.Write(b)
+			return true
+		case "storage-get":
+			if !strings.HasSuffix(r.URL.Path, "/"+foid) {
+				return false
+			}
+			if kind == faultNames[ftGet404] {
+				w.Header().Set("Content-Type", fakelfs.MediaType)
+				w.WriteHeader(404)
+				w.Write([]byte(`{"message":"no such object"}`))
+				return true
+			}
+			if kind == faultNames[ftGet500x1] && first() {
+				w.Header().Set("Content-Type", fakelfs.MediaType)
+				w.WriteHeader(500)
+				w.Write([]byte(`{"message":"internal error"}`))
+				return true
+			}
 		}
-		b, _ := json.Marshal(resp)
-		w.Header().Set("Content-Type", fakelfs.MediaType)
-		w.WriteHeader(200)
-		w.Write(b)
-		return true
+		return false
 	}
 }
